@@ -52,7 +52,7 @@ def _ignored(stack, path, is_dir):
 
 
 def scan(roots, *, hidden=False, follow=False, report_links=False, depth=None, min_size=1,
-         max_size=None, name_filter=None, blocked=(), honour_ignore=False, prune=None):
+         max_size=None, name_filter=None, blocked=(), honour_ignore=False, prune=None, one_fs=False, dev_of=None):
     """-> dict: selected absolute path (bytes) -> (ident, size).
     roots: absolute bytes paths as the user gave them (after joining with cwd)."""
     selected = {}
@@ -70,6 +70,16 @@ def scan(roots, *, hidden=False, follow=False, report_links=False, depth=None, m
         if name_filter is not None and not name_filter(path):
             return
         selected[path] = ((st.st_dev, st.st_ino), st.st_size)
+
+    def devof(p):
+        if dev_of is not None:
+            return dev_of(p)
+        try:
+            return os.stat(p).st_dev
+        except OSError:
+            return None
+
+    root_dev = [None]
 
     def visit(path, level, stack=()):
         if path in blocked:
@@ -94,6 +104,8 @@ def scan(roots, *, hidden=False, follow=False, report_links=False, depth=None, m
         elif stat.S_ISDIR(lst.st_mode):
             if prune is not None and prune(path):
                 return
+            if one_fs and devof(path) != root_dev[0]:
+                return          # --one-fs: nested mount points are skipped
             # a file d levels below a root is selected iff d <= depth
             if depth is not None and level >= depth:
                 return
@@ -118,6 +130,8 @@ def scan(roots, *, hidden=False, follow=False, report_links=False, depth=None, m
             if stat.S_ISREG(tst.st_mode) and report_links:
                 select(path)
                 return
+            if follow and one_fs and devof(path) != root_dev[0]:
+                return          # --one-fs: links crossing file systems are not followed
             if follow:
                 if not os.path.isabs(tgt):
                     tgt = os.path.join(os.path.dirname(path), tgt)
@@ -135,6 +149,7 @@ def scan(roots, *, hidden=False, follow=False, report_links=False, depth=None, m
             continue
         if stat.S_ISDIR(st.st_mode) and depth == 0:
             continue
+        root_dev[0] = devof(c)
         visit(c, 0)
     return selected
 
